@@ -195,6 +195,8 @@ def check(ctx: Ctx) -> None:
                           f"join over {short(over)} of {short(item)}", f"the remaining tokens are derived from {short(over)} as {short(item)}, not the unchanged whitespace tokens in order")
                 # the filter: element != stripped argument
                 ml = [o for o in _all_lists(l) if o.mode == "map" and o.var is var]
+                if not ml and isinstance(pay.get("map"), SList):
+                    ml = [pay["map"]]        # a generator expression handed straight to join()
                 atoms = ml[0].__dict__.get("cond_atoms", []) if ml else []
                 nodes = ml[0].__dict__.get("cond_nodes", []) if ml else []
                 import ast as _ast
